@@ -199,6 +199,45 @@ def colliding_modules(rng):
     return {"m.emb": "\n".join(main) + "\n", "lib.emb": "\n".join(lib) + "\n"}
 
 
+def deep_module(rng):
+    """IR shapes much deeper or wider than anything under testdata/: long `$next` runs (each expands into the
+    previous field's start + size), long operator chains, nested parentheses and choices, deeply nested subtypes,
+    many fields / enum values, long names and documentation."""
+    L = ['[$default byte_order: "LittleEndian"]']
+    k = rng.random()
+    if k < 0.3:
+        n = rng.choice([10, 27, 40, 80, 150])
+        L += ["struct Run:", "  0 [+1]  UInt  f0"] + ["  $next [+%d]  UInt  f%d" % (rng.choice([1, 2]), i) for i in range(1, n)]
+    elif k < 0.55:
+        n = rng.choice([10, 30, 60, 120])
+        ops = [rng.choice(["+", "-", "+"]) for _ in range(n)]
+        e = "a" + "".join(" %s %s" % (o, rng.choice(["a", "b", "1", "2"])) for o in ops)
+        L += ["struct Chain:", "  0 [+1]  UInt  a", "  1 [+1]  UInt  b", "  let v = %s" % e]
+        if rng.random() < 0.5:
+            L.append("  let w = %s" % " && ".join(["a == %d" % rng.randint(0, 9) for _ in range(rng.choice([5, 40]))]))
+    elif k < 0.75:
+        n = rng.choice([8, 20, 45])
+        e = "a"
+        for i in range(n):
+            e = rng.choice(["(%s + 1)", "$max(%s, b)", "(a < b ? %s : b)", "(%s)"]) % e
+        L += ["struct Nest:", "  0 [+1]  UInt  a", "  1 [+1]  UInt  b", "  let v = %s" % e]
+    elif k < 0.9:
+        n = rng.choice([4, 9, 14])
+        ind = ""
+        for i in range(n):
+            L.append("%sstruct Level%d:" % (ind, i))
+            ind += "  "
+        L.append("%s0 [+1]  UInt  leaf" % ind)
+        for i in range(n - 1, 0, -1):
+            ind = ind[:-2]
+            L.append("%s0 [+1]  Level%d  down%d" % (ind, i, i))
+    else:
+        n = rng.choice([60, 200])
+        L += ["enum Many:"] + ["  VALUE_%d = %d" % (i, i * 3) for i in range(n)]
+        L += ["struct Wide:", "  -- " + "doc " * 200] + ["  %d [+1]  UInt  field_with_a_rather_long_name_%d" % (i, i) for i in range(n)]
+    return {"m.emb": "\n".join(L) + "\n"}
+
+
 def gen_sources(seed, start, count):
     corpus = [c for c in textgen.corpus() if c[1].strip()]
     out = []
@@ -211,6 +250,9 @@ def gen_sources(seed, start, count):
         r = rng.random()
         if r > 0.9:
             out.append(("colliding-names", colliding_modules(rng), "m.emb"))
+            continue
+        if r > 0.82:
+            out.append(("deep-or-wide", deep_module(rng), "m.emb"))
             continue
         name, text = corpus[rng.randrange(len(corpus))]
         files = {"m.emb": text}
